@@ -276,7 +276,10 @@ func init() {
 				}
 			}},
 			{Name: "merge-family-outputs", Count: n(40000, 800000), Run: func(c *core.Ctx, idx int) {
-				prof := hostile.With(func(p *gen.Profile) { p.Keys = append(append([]string{}, gen.MergeKeys...), "\xe2\x80\xa9", "<>&", "\x01", "é"); p.Width = 4 })
+				prof := hostile.With(func(p *gen.Profile) {
+					p.Keys = append(append([]string{}, gen.MergeKeys...), "\xe2\x80\xa9", "<>&", "\x01", "é")
+					p.Width = 4
+				})
 				var api string
 				var a, b string
 				var f mergeCall
